@@ -23,7 +23,7 @@ BASE = dict(
     Ops=fs("create", "update", "delete"), MaxOps=2, MaxTx=6, TxKinds=fs("update"), SysCtxs=fs(False), Vias=fs("people"),
     NamePool=fs(), IdNames=True, NickPool=fs(NIL), RolePool=fs(fs()), BossPool=fs(NIL), TeamPool=fs(NIL), SysPool=fs(False),
     LeadPool=fs(False), GradePool=fs("g1"), LtPool=fs(fs(NIL)), FieldSets=Sub("FS_All"), VetoPool=fs(False), PrePool=fs(),
-    CountPool=fs(), IdOrder=Sub("Order2"),
+    CountPool=fs(), MaxRc=3, IdOrder=Sub("Order2"),
 )
 
 THREE = dict(Ids=fs("p1", "p2", "p3"), IdOrder=Sub("Order3"))
@@ -66,6 +66,12 @@ C05 = family("C05", BASE, Teams=fs("t1", "t2"),
              Ops=fs("create", "delete", "createTeam", "deleteTeam", "addLinks", "removeLinks", "setLinks", "addLink",
                     "removeLink", "rcInc", "rcDec", "rcSet"),
              CountPool=fs(0, 1, 3), MaxOps=3)
+LINKOPS = fs("create", "delete", "createTeam", "deleteTeam", "addLinks", "removeLinks", "setLinks", "addLink", "removeLink")
+RCOPS = fs("create", "delete", "createTeam", "deleteTeam", "rcInc", "rcDec", "rcSet")
+family("C05_links", C05, Ops=LINKOPS, MaxOps=2)
+family("C05_rc", C05, Ops=RCOPS, MaxOps=2, MaxRc=2, CountPool=fs(0, 2))
+family("C05_links1", C05, Ops=LINKOPS, MaxOps=2, Teams=fs("t1"))
+family("C05_rc1", C05, Ops=RCOPS, MaxOps=2, MaxRc=2, CountPool=fs(0, 2), Teams=fs("t1"))
 family("C05_entity", C05, LinksViaEntity=True, LtPool=fs(fs(), fs("t1"), fs("t1", "t2")),
        Ops=fs("create", "update", "delete", "createTeam", "deleteTeam", "addLinks", "removeLinks"), FieldSets=Sub("FS_C05"))
 
@@ -99,6 +105,35 @@ C16 = family("C16", BASE, Teams=fs("t1"), TeamMode="idxCascade", SysCtxs=fs(Fals
              NickPool=fs(NIL, "x"), TeamPool=fs(NIL, "t1"), FieldSets=Sub("FS_C16"), MaxOps=3)
 
 
+# bounds of the exhaustive runs, fitted to measured state counts (bin/size.py): quick finishes in well under a minute,
+# thorough in minutes.  Generation (simulation) always uses the richer family tables above.
+FS_ALL = Sub("FS_All")
+MC_QUICK = {
+    "C06": dict(MaxOps=1, NickPool=fs(NIL), RolePool=fs(fs(), fs("r1")), BossPool=fs(NIL, "p1"), GradePool=fs("g1"), FieldSets=FS_ALL,
+                Ops=fs("create", "update", "delete", "createTeam", "deleteTeam", "addLinks", "rcInc"), MaxRc=1),
+    "C07": dict(MaxOps=2, RolePool=fs(fs(), fs("")), SysCtxs=fs(False), SysPool=fs(False), TxKinds=fs("update"), FieldSets=FS_ALL),
+    "C08": dict(MaxOps=2, NickPool=fs(NIL), LeadPool=fs(False), TxKinds=fs("update"), FieldSets=FS_ALL),
+    "C15": dict(MaxOps=2, LeadPool=fs(False), NickPool=fs(NIL), FieldSets=FS_ALL),
+    "C15_ext": dict(MaxOps=2, LeadPool=fs(False), NickPool=fs(NIL), FieldSets=FS_ALL),
+    "C16": dict(MaxOps=2),
+    "C05": dict(MaxOps=2),
+}
+MC_THOROUGH = {
+    "C06": dict(MaxOps=2, NickPool=fs(NIL), RolePool=fs(fs(), fs("r1")), BossPool=fs(NIL, "p1"), GradePool=fs("g1"), FieldSets=FS_ALL,
+                Ops=fs("create", "update", "delete", "createTeam", "deleteTeam", "addLinks", "rcInc"), MaxRc=1),
+    "C06_cascade": dict(MaxOps=2, NickPool=fs(NIL), RolePool=fs(fs(), fs("r1")), BossPool=fs(NIL, "p1"), GradePool=fs("g1"), FieldSets=FS_ALL,
+                        Ops=fs("create", "update", "delete", "createTeam", "deleteTeam", "addLinks", "rcInc"), MaxRc=1),
+    "C07": dict(MaxOps=2, TxKinds=fs("update")),
+    "C08": dict(MaxOps=2),
+    "C15": dict(MaxOps=2),
+    "C15_ext": dict(MaxOps=2),
+}
+
+
+def mc_bounds(fam, tier):
+    return (MC_QUICK if tier == "quick" else MC_THOROUGH).get(fam)
+
+
 def render(consts):
     def r(v):
         if isinstance(v, Sub):
@@ -122,12 +157,12 @@ def render(consts):
     return "\n".join(lines)
 
 
-def mc_cfg(fam, invariants, properties=(), extra=None):
+def mc_cfg(fam, invariants, properties=(), extra=None, view="ViewNoObs"):
     c = dict(FAMILIES[fam])
     c["MaxTx"] = 1000000   # exhaustive runs are bounded by the finite state, not by the number of transactions (ntx is outside the VIEW)
     if extra:
         c.update(extra)
-    out = ["SPECIFICATION Spec", "VIEW ViewNoObs", "CHECK_DEADLOCK FALSE"]
+    out = ["SPECIFICATION Spec", "VIEW " + view, "CHECK_DEADLOCK FALSE"]
     out += ["INVARIANT " + i for i in invariants]
     out += ["PROPERTY " + p for p in properties]
     out += ["CONSTANTS", render(c)]
